@@ -27,8 +27,8 @@ open Golem.Props.C08
 #print axioms graph_step_complete
 #print axioms graph_init
 #print axioms wf_iff
+#print axioms enq_gen
+#print axioms deq_gen
+#print axioms head_gen
+#print axioms emit_gen
 #print axioms newq_text
-#print axioms enq_text
-#print axioms deq_text
-#print axioms head_text
-#print axioms emit_text
